@@ -788,6 +788,24 @@ def c14_objectives(tier, seed):
                 if int(sol.get(gid, -1)) != want:
                     _viol(r, "c14.priority-on-named-group-ignored", {"config": cfg0.to_json(), "prio": {gid: pv}},
                           solution={str(k_): int(v) for k_, v in sol.items()}, expected={gid: want})
+    # a request that names EVERY column of the polyhedron (items, rules and auxiliary variables alike), and polyhedra of ONE
+    # column: every named column carries a weight of its priority's sign, larger magnitudes get larger weights
+    one = cc.StingyConfigurator(puan.variable("t", (0, 3)), id="single")
+    small = cc.StingyConfigurator(pg.Any("a", "b", "c", variable="X"), pg.AtMost(1, ["b", "c"], variable="Y"), id="M")
+    for cfg0 in (one, small):
+        poly0 = cfg0.ge_polyhedron
+        ids0 = [v.id for v in poly0.A.variables]
+        for sgn in (1, -1):
+            for shift in (0, 2):
+                prio0 = {cid: sgn * (k_ + 1 + shift) for k_, cid in enumerate(ids0)}
+                obj0 = [int(x) for x in np.asarray(poly0._vectors_from_prios([prio0])[0], dtype=object)]
+                r["evaluations"] += 1
+                r["_seen"].add(("all-columns-named", len(ids0), sgn, shift))
+                ok0 = all((o > 0) == (sgn > 0) and o != 0 for o in obj0) and \
+                    all(abs(obj0[i]) < abs(obj0[j]) for i in range(len(ids0)) for j in range(len(ids0)) if abs(prio0[ids0[i]]) < abs(prio0[ids0[j]]))
+                if not ok0:
+                    _viol(r, "c14.objective-loses-a-named-column", {"config": cfg0.to_json(), "prio": {str(a_): b_ for a_, b_ in prio0.items()}},
+                          objective=obj0, columns=[str(i) for i in ids0])
     # a default list of several entries: the FIRST listed entry is the default, whatever the order of the items
     for kind in ("Xor", "Any"):
         for xs, dl in ((["petrol", "diesel", "electric"], ["electric", "diesel"]), (["m", "a", "c"], ["c", "a"]),
